@@ -4,7 +4,8 @@
 # against it.  Prints one line per check: "<name> <ID> rc=<rc>".  Default IDs: the property of the seed (meta.json),
 # or all 20 for benign-* fixtures.
 NAME=$1; shift
-D=/verif/seeded/$NAME
+HERE="$(cd "$(dirname "$0")/.." && pwd)"
+D=$HERE/seeded/$NAME
 WT=$(mktemp -d /tmp/fx-XXXXXX); rmdir $WT
 git -C /repo worktree add --detach $WT HEAD -q || exit 2
 ( cd $WT && git apply $D/patch.diff ) || { echo "$NAME patch does not apply"; git -C /repo worktree remove --force $WT; exit 2; }
@@ -14,7 +15,7 @@ if [ -z "$IDS" ]; then
                 *) IDS=$(python3 -c "import json; print(json.load(open('$D/meta.json'))['property'])");; esac
 fi
 for id in $IDS; do
-  out=$(IXAI_REPO=$WT /verif/bin/check $id 2>&1); rc=$?
+  out=$(IXAI_REPO=$WT $HERE/bin/check $id 2>&1); rc=$?
   echo "$NAME $id rc=$rc :: $(echo "$out" | grep -E '^  clause=' | head -1 | cut -c1-160)"
 done
 git -C /repo worktree remove --force $WT; git -C /repo worktree prune
